@@ -1515,9 +1515,10 @@ class GitTreeTransform(DiskTreeTransform):
             except BaseException:
                 mover.rollback()
                 raise
-            else:
-                mover.apply_deletions()
         self._tree._apply_index_changes(index_changes)
+        # Discard replaced content only once the index describes the new
+        # layout, so that a failure here cannot leave the index behind.
+        mover.apply_deletions()
         self._done = True
         self.finalize()
         return _TransformResults(modified_paths, self.rename_count)
